@@ -299,3 +299,48 @@ func CoqTree(n *Node, msg []byte) string {
 	}
 	return fmt.Sprintf("(MNode %s %s %d %d %s [%s])", h, CoqEnv(n.Env), len(body), CountLines(body), emb, strings.Join(cs, "; "))
 }
+
+// LeafSignature lists type/subtype, size and line count of the non-container parts of a BODY syntax tree, in order
+// (sizes of message/rfc822 containers depend on the line ends of the embedded header and are left out).
+func LeafSignature(it *PItem) string {
+	var sb strings.Builder
+	var rec func(x *PItem)
+	rec = func(x *PItem) {
+		if x.Kind != KList || len(x.List) == 0 {
+			sb.WriteString("?")
+			return
+		}
+		if x.List[0].Kind == KList {
+			sb.WriteString("[")
+			for _, c := range x.List {
+				if c.Kind == KList {
+					rec(c)
+				}
+			}
+			sb.WriteString("]")
+			return
+		}
+		t, _ := x.List[0].Text()
+		st, _ := "", false
+		if len(x.List) > 1 {
+			st, _ = x.List[1].Text()
+		}
+		if t == "message" && st == "rfc822" && len(x.List) > 8 {
+			sb.WriteString("msg{")
+			rec(x.List[8])
+			sb.WriteString("}")
+			return
+		}
+		fmt.Fprintf(&sb, "(%s/%s", t, st)
+		for _, i := range []int{6, 7} {
+			if i < len(x.List) {
+				if n, ok := x.List[i].Number(); ok {
+					fmt.Fprintf(&sb, " %d", n)
+				}
+			}
+		}
+		sb.WriteString(")")
+	}
+	rec(it)
+	return sb.String()
+}
